@@ -99,9 +99,9 @@ func (b *backend) exec(c *Conc, call Call) (res rawResult) {
 		rel, _ := c.Release(AbsRel{call.Name, call.Rev, call.St, call.V})
 		res.err = b.st.Update(rel)
 	case "get":
-		res.rel, res.err = b.st.Get(c.Names[call.Name], call.Rev)
+		res.rel, res.err = b.st.Get(c.Names[call.Name], c.ConcRev(call.Rev))
 	case "delete":
-		res.rel, res.err = b.st.Delete(c.Names[call.Name], call.Rev)
+		res.rel, res.err = b.st.Delete(c.Names[call.Name], c.ConcRev(call.Rev))
 	case "list":
 		wantName, wantStatus := "", ""
 		if call.Q.Name != "" {
@@ -132,6 +132,9 @@ func (b *backend) exec(c *Conc, call Call) (res rawResult) {
 		}
 		if call.Q.Version != "" {
 			q["version"] = call.Q.Version
+			if n, err := strconv.Atoi(call.Q.Version); err == nil {
+				q["version"] = strconv.Itoa(c.ConcRev(n))
+			}
 		}
 		res.rels, res.err = b.st.Query(q)
 	default:
@@ -184,12 +187,12 @@ func (t *table) abstract(c *Conc, r *rspb.Release) (a AbsRel, diff []string, big
 	}
 	p, err := Project(r)
 	if err != nil {
-		return AbsRel{Name: c.AbsName(r.Name), Rev: r.Version, St: "?", V: 0}, []string{"<unprojectable: " + err.Error() + ">"}, false
+		return AbsRel{Name: c.AbsName(r.Name), Rev: c.AbsRev(r.Version), St: "?", V: 0}, []string{"<unprojectable: " + err.Error() + ">"}, false
 	}
 	if a, ok := t.byDigest[p.Digest()]; ok {
 		return a, nil, t.big[a]
 	}
-	a = AbsRel{Name: c.AbsName(r.Name), Rev: r.Version, St: c.AbsStatus(p.Status), V: 0}
+	a = AbsRel{Name: c.AbsName(r.Name), Rev: c.AbsRev(r.Version), St: c.AbsStatus(p.Status), V: 0}
 	best := []string{"<no stored release with this name and revision>"}
 	bestN := 1 << 30
 	for cand, cp := range t.projs {
@@ -269,7 +272,13 @@ func absKey(c *Conc, objName string) string {
 	for abs, cn := range c.Names {
 		re := regexp.MustCompile(`^sh\.helm\.release\.v1\.` + regexp.QuoteMeta(cn) + `\.v([0-9]+)$`)
 		if m := re.FindStringSubmatch(objName); m != nil {
-			return abs + "/" + m[1]
+			n, err := strconv.Atoi(m[1])
+			if err != nil || strconv.Itoa(n) != m[1] {
+				continue
+			}
+			if a := c.AbsRev(n); a > 0 {
+				return abs + "/" + strconv.Itoa(a)
+			}
 		}
 	}
 	return "?" + objName
@@ -363,7 +372,7 @@ func (b *backend) projectStore(c *Conc, t *table) (out map[string]StoreRec, pani
 		}
 		r.Labels = lbl // user labels live in the object's metadata; Project drops the system keys
 		a, _, _ := t.abstract(c, r)
-		lab := &Sel{Name: c.AbsName(lbl["name"]), Owner: lbl["owner"], Status: c.AbsStatus(lbl["status"]), Version: lbl["version"]}
+		lab := &Sel{Name: c.AbsName(lbl["name"]), Owner: lbl["owner"], Status: c.AbsStatus(lbl["status"]), Version: c.AbsVersion(lbl["version"])}
 		out[key] = StoreRec{AbsRel: a, Lab: lab}
 		b.seen[k.Name] = out[key]
 	}
@@ -442,7 +451,7 @@ func RunScenario(seed int64, tier string, sc Scenario) (*Result, error) {
 			}
 			if call.Name != "" {
 				raw.CName = c.Names[call.Name]
-				raw.Key = StorageKey(raw.CName, call.Rev)
+				raw.Key = StorageKey(raw.CName, c.ConcRev(call.Rev))
 				if call.Op == "create" || call.Op == "update" {
 					raw.BigInt = t.big[AbsRel{call.Name, call.Rev, call.St, call.V}]
 				}
